@@ -1,9 +1,9 @@
 (* C03  Transport tensors are symmetric, non-negative and crystal-invariant.
    All statements: every ordered commutative ring K, every finite reversible network (interstitial unit
    cell, bare vacancy, solute-vacancy pair chain on any torus), any correctors. *)
-From Coq Require Import List Arith.
-From Onsager Require Import Base.OrdRing Model.Net Model.Interstitial Model.NetMaps
-     Proofs.Net_proofs Proofs.NetMaps_proofs.
+From Coq Require Import List Arith ZArith.
+From Onsager Require Import Base.OrdRing Base.Instances Model.Net Model.Interstitial Model.NetMaps
+     Model.Lump Model.TensorSym Proofs.Net_proofs Proofs.NetMaps_proofs Proofs.TensorSym_proofs.
 Import ListNotations.
 
 (* symmetric in the Cartesian indices (and Onsager reciprocity between species) *)
@@ -49,6 +49,42 @@ Theorem C03_symmetry_checker_sound :
       = conj_tensor dim Rm (fun a b => Bform N (comp a) (comp b) (g a) (g b)) k l.
 Proof. exact symmetry_checker_sound. Qed.
 
+(* CROSS tensors (solute-vacancy).  C03_symmetric exchanges species and indices TOGETHER (Onsager reciprocity
+   Lsv_ab = Lvs_ba); symmetry of X_ab = L(S_a, V_b) in a,b alone is NOT a theorem: *)
+Theorem C03_cross_symmetric_refuted :
+  exists (N : net Zring) (g : nat -> nat -> Z),
+    nonneg N /\ revclosedb N = true /\
+    (forall k, k < 4 -> weakKCL N (comp k) (g k)) /\
+    Bform N (comp 0) (comp (2 + 1)) (g 0) (g 3) <> Bform N (comp 1) (comp (2 + 0)) (g 1) (g 2).
+Proof. exact cross_symmetric_refuted. Qed.
+
+(* ... it holds exactly when the point group leaves no antisymmetric tensor invariant.  Partial statement of the
+   property for cross tensors: T invariant under the operations Rs (which C03_crystal_invariant provides, applied to
+   the two-species network with displacement ds ++ dv and the block matrix R (+) R) and the executable criterion
+   no_axialb give |Rs| * 2 * (T_kl - T_lk) = 0 in every ordered ring, hence T_kl = T_lk in torsion-free rings (Z, Q). *)
+Theorem C03_cross_symmetric_partial :
+  forall (K : ordring) dim Rs (T : nat -> nat -> K),
+    invariant dim Rs T -> no_axialb dim Rs = true ->
+    forall k l, k < dim -> l < dim ->
+      kmul (length Rs) (radd K (asym T k l) (asym T k l)) = r0 K.
+Proof. exact cross_symmetric_of_group. Qed.
+
+Theorem C03_cross_symmetric_partial_Z :
+  forall dim Rs (T : nat -> nat -> Z),
+    Rs <> [] -> invariant (K:=Zring) dim Rs T -> no_axialb (K:=Zring) dim Rs = true ->
+    forall k l, k < dim -> l < dim -> T k l = T l k.
+Proof. intros dim Rs T. exact (cross_symmetric_of_group_tf Zring dim Rs T Z_torsion_free). Qed.
+
+(* the exact evaluator of the cross tensor used by the correspondence is sound *)
+Theorem C03_cross_report_sound :
+  forall (K : ordring) n dim (N : net K) gam X,
+    cross_report n dim N gam = Some X ->
+    nonneg N /\
+    forall a b, a < dim -> b < dim ->
+      forall ga gb, weakKCL N (comp a) ga -> weakKCL N (comp (dim + b)) gb ->
+        Bform N (comp a) (comp (dim + b)) ga gb = ent X a b.
+Proof. exact cross_report_sound. Qed.
+
 Goal True. idtac "ASSUMPTIONS-OF C03_symmetric". Abort.
 Print Assumptions C03_symmetric.
 Goal True. idtac "ASSUMPTIONS-OF C03_nonneg". Abort.
@@ -59,3 +95,11 @@ Goal True. idtac "ASSUMPTIONS-OF C03_crystal_invariant". Abort.
 Print Assumptions C03_crystal_invariant.
 Goal True. idtac "ASSUMPTIONS-OF C03_symmetry_checker_sound". Abort.
 Print Assumptions C03_symmetry_checker_sound.
+Goal True. idtac "ASSUMPTIONS-OF C03_cross_symmetric_refuted". Abort.
+Print Assumptions C03_cross_symmetric_refuted.
+Goal True. idtac "ASSUMPTIONS-OF C03_cross_symmetric_partial". Abort.
+Print Assumptions C03_cross_symmetric_partial.
+Goal True. idtac "ASSUMPTIONS-OF C03_cross_symmetric_partial_Z". Abort.
+Print Assumptions C03_cross_symmetric_partial_Z.
+Goal True. idtac "ASSUMPTIONS-OF C03_cross_report_sound". Abort.
+Print Assumptions C03_cross_report_sound.
